@@ -55,14 +55,26 @@ func verifHarness_C20_observer() {
 	verifReach("follow-up-served")
 }
 
-func c20Table(n int) []atomic.Int32 { return verifAbstractSlice_atomicInt32(n) }
+// the counter table after an arbitrary history of grows: any length, any spare capacity
+func c20Table(n int) []atomic.Int32 {
+	c := verifNondetInt("tableCap")
+	verifAssume(verifAnd(c >= n, c <= 1<<30))
+	verifReachIf(c > n, "table-with-spare-capacity")
+	return verifAbstractSlice_atomicInt32(n, c)
+}
 
-// In the engine: a slice of symbolic length n whose contents are unmodelled.
-func verifAbstractSlice_atomicInt32(n int) []atomic.Int32 {
+// In the engine: a slice of symbolic length n and capacity c whose contents are unmodelled.
+func verifAbstractSlice_atomicInt32(n, c int) []atomic.Int32 {
 	if n > 1<<24 {
 		n = 1 << 24
 	}
-	return make([]atomic.Int32, n)
+	if c > 1<<24 {
+		c = 1 << 24
+	}
+	if c < n {
+		c = n
+	}
+	return make([]atomic.Int32, n, c)
 }
 
 // ---------------------------------------------------------------------------
